@@ -202,6 +202,9 @@ class PubWalk(object):
                         on_tx(self, e, ri, fr, first)
             elif k == "rx":
                 d = e.d["desc"]
+                if d[0] == "CONNACK" and d[1] == 0 and w.conns[e.c].clean:
+                    # a clean session is being established: carried-over QoS 0 messages still held back are dropped
+                    self._drop_unsent_q0(w.conns[e.c].a, before_conn=w.conns[e.c])
                 if d[0] in ("PUBACK", "PUBREC", "PUBCOMP"):
                     a = w.conns[e.c].a
                     for ri in F.pubs():
@@ -1402,8 +1405,10 @@ def mon_c12(w, F, vd):
                 vd.label("c12:resume")
                 exp_rel = [ri for ri in carried if ri.qos == 2 and any(t.ei < e.i for t in ri.rel)
                            and not any(a_[3] == "PUBCOMP" and a_[0] < e.i for a_ in ri.acks)]
-                exp_pub = [ri for ri in carried if ri.qos and any(t.ei < e.i for t in ri.tx) and ri not in exp_rel
+                exp_pub = [ri for ri in carried if ri.qos and any(t.ei < e.i and t.c != conn.idx for t in ri.tx) and ri not in exp_rel
                            and not any(a_[3] in ("PUBACK", "PUBREC") and a_[0] < e.i for a_ in ri.acks)]
+                released_here = [ri for ri in carried if ri.qos and ri.tx and all(t.c == conn.idx for t in ri.tx if t.ei < e.i)
+                                 and any(t.ei < e.i for t in ri.tx)]
                 exp_pub.sort(key=lambda ri: ri.tx[0].ei)
                 got_rel = [fr[1]["id"] for (x, fr) in frames if fr[0] == "PUBREL"]
                 if sorted(got_rel) != sorted(ri.msgid for ri in exp_rel):
@@ -1426,6 +1431,8 @@ def mon_c12(w, F, vd):
                                 vd.bad("C12.resume_without_dup", "publish #%d re-sent at CONNACK with DUP=0" % rid)
                             if bytes([fr[2][0] & 0xF7]) + fr[2][1:] != bytes([first.raw[0] & 0xF7]) + first.raw[1:]:
                                 vd.bad("C12.resume_content", "publish #%d re-sent with different id/topic/payload" % rid)
+                        elif ri in released_here:
+                            vd.bad("C12.released_then_resent", "publish #%d was held back, first sent on this connection before its CONNACK, and sent again by the resumption" % rid)
                         elif ri.conn is conn and any(t.ei < e.i for t in ri.tx):
                             vd.bad("C12.own_request_resent", "publish #%d was made on this connection before its CONNACK and was re-sent by the resumption" % rid)
                 if [ri.rid for ri in got_pub] != [ri.rid for ri in exp_pub]:
@@ -1476,3 +1483,297 @@ def mon_c12(w, F, vd):
                     vd.bad("C12.never_completed", "publish #%d (first made on connection %d) still pending after the broker answered everything on connection %d" % (
                         ri.rid, ri.conn.idx, cur.idx))
     vd.nontrivial = nontriv
+
+
+# ====================================================================== C14
+
+API_OPS = ("connect", "disconnect", "publish", "subscribe", "unsubscribe")
+
+
+def _allowed(op, st, prof):
+    if op == "connect":
+        return st == "idle"
+    if op == "disconnect":
+        return st == "connected"
+    if op == "publish":
+        return bool(prof & 2) and st in ("connecting", "connected")
+    return bool(prof & 1) and st == "connected"
+
+
+def _belongs(kind, st, prof):
+    if kind == "CONNACK":
+        return st == "connecting"
+    if kind == "PINGRESP":
+        return st == "connected"
+    if kind in ("SUBACK", "UNSUBACK", "PUBLISH", "PUBREL"):
+        return st == "connected" and bool(prof & 1)
+    if kind in ("PUBACK", "PUBREC", "PUBCOMP"):
+        return st == "connected" and bool(prof & 2)
+    return True
+
+
+def _is_state_error(x):
+    return type(x).__name__ == "MQTTStateError"
+
+
+def mon_c14(w, F, vd):
+    prof = w.cfg["profile"]
+    phase, closed, lost, zombie = {}, set(), set(), set()
+    cells = set()
+    for e in w.log:
+        k = e.k
+        if k == "build":
+            phase[e.c] = "new"
+        elif k == "phase":
+            phase[e.c] = e.d["new"]
+        elif k in ("close", "abort"):
+            closed.add(e.c)
+        elif k == "lost":
+            lost.add(e.c)
+        elif k == "api" and e.d["op"] in API_OPS:
+            c = e.c
+            if c in closed and c not in lost:
+                continue            # closing interval: C18 judges what is written there
+            if c in zombie:
+                continue            # connect() was called on a protocol whose connection is gone: no statement covers what follows
+            if c in lost and e.d["op"] == "connect":
+                zombie.add(c)
+            r = w.reqs[e.d["rid"]]
+            if getattr(r, "valid", True) is False:
+                continue
+            ph = phase.get(c, "new")
+            st = "idle" if (c in lost or ph in ("new", "refused")) else ph
+            op = e.d["op"]
+            allowed = _allowed(op, st, prof)
+            cell = "%s:%s:%s:%s" % (prof, ("idle_lost" if c in lost else "idle_refused" if ph == "refused" else "idle_new" if st == "idle" else st), op,
+                                    r.args.get("qos") if op == "publish" and isinstance(r.args, dict) else "")
+            cells.add(cell)
+            evs = _ctx_events(w, e)
+            wrote = [x for x in evs if x.k == "write"]
+            in_call_err = None
+            if r.ret == "raised":
+                in_call_err = r.exc
+            elif r.ret == "deferred" and r.fires and w.log[r.fires[0][0]].ctx is e.ctx and r.fires[0][3] == "err":
+                in_call_err = r.fires[0][4]
+            single = w.ops_done[e.step][0] == op
+            if not allowed:
+                ok = in_call_err is not None and _is_state_error(in_call_err)
+                if op == "disconnect":
+                    ok = ok and r.ret == "raised"
+                else:
+                    ok = ok and r.ret == "deferred"
+                if not ok:
+                    vd.bad("C14.forbidden_honoured", "profile %d, %s: %s() was not refused with MQTTStateError (%s)" % (
+                        prof, cell.split(":")[1], op, "raised %s" % type(r.exc).__name__ if r.ret == "raised" else
+                        ("failed %s" % type(in_call_err).__name__ if in_call_err is not None else r.ret + (", pending" if not r.fires else ", fired ok"))))
+                if wrote:
+                    vd.bad("C14.forbidden_wrote", "profile %d, %s: forbidden %s() wrote %d bytes" % (
+                        prof, cell.split(":")[1], op, sum(len(x.d["data"]) for x in wrote)))
+                if r.state_before != r.state_after:
+                    vd.bad("C14.forbidden_state_change", "forbidden %s() moved protocol.state %s -> %s" % (op, r.state_before, r.state_after))
+                if any(x.k == "fire" and x.d["rid"] != r.rid for x in evs):
+                    vd.bad("C14.forbidden_side_effect", "forbidden %s() fired another request's Deferred" % op)
+                if single:
+                    ta, tb = timers_before_after(w, F, e.step)
+                    if ta != tb:
+                        vd.bad("C14.forbidden_timer", "forbidden %s() changed the pending timers %s -> %s" % (op, ta[:5], tb[:5]))
+            else:
+                if in_call_err is not None and _is_state_error(in_call_err):
+                    vd.bad("C14.allowed_refused", "profile %d, %s: %s() refused with MQTTStateError" % (prof, cell.split(":")[1], op))
+                elif op == "connect" and getattr(r, "valid", True) and c not in lost:
+                    if not any(fr[0] == "CONNECT" for x in wrote for fr in x.d["frames"]):
+                        vd.bad("C14.allowed_no_effect", "connect() on an idle protocol wrote no CONNECT")
+                elif op == "disconnect":
+                    if not any(fr[0] == "DISCONNECT" for x in wrote for fr in x.d["frames"]) or not any(x.k == "close" for x in evs):
+                        vd.bad("C14.allowed_no_effect", "disconnect() while connected did not write DISCONNECT and close")
+                elif op == "publish" and isinstance(r.args, dict) and not r.args.get("call"):
+                    ri = F.info.get(r.rid)
+                    if ri is not None and not ri.accepted:
+                        vd.bad("C14.allowed_no_effect", "publish() in state %s was not accepted (%s)" % (st, type(in_call_err).__name__))
+        elif k == "rx":
+            c = e.c
+            d = e.d["desc"]
+            if d[0] == "RAW":
+                continue
+            ph = phase.get(c, "new")
+            st = "idle" if ph in ("new", "refused") else ph
+            cells.add("%s:%s:rx:%s" % (prof, "idle_refused" if ph == "refused" else "idle_new" if st == "idle" else st, d[0]))
+            if _belongs(d[0], st, prof):
+                continue
+            evs = _ctx_events(w, e)
+            eff = [x for x in evs if x.k in ("write", "fire", "cb", "close", "abort", "escape") and not (
+                x.k == "escape" and x.d["where"].startswith("log:"))]
+            if eff:
+                vd.bad("C14.stray_packet_effect", "profile %d, state %s: %s caused %s" % (prof, st, d[0], sorted(set(
+                    (x.k + ":" + ",".join(fr[0] for fr in x.d["frames"])) if x.k == "write" else x.k for x in eff))))
+            if w.ops_done[e.step][0] == "rx":
+                ta, tb = timers_before_after(w, F, e.step)
+                if ta != tb:
+                    vd.bad("C14.stray_packet_timer", "profile %d, state %s: %s changed the pending timers" % (prof, st, d[0]))
+                a_, b_ = F.step_end.get(e.step - 1), F.step_end.get(e.step)
+                if a_ and b_ and dict(a_.d["states"]).get(c) != dict(b_.d["states"]).get(c):
+                    vd.bad("C14.stray_packet_state", "profile %d: %s moved protocol.state %s -> %s" % (
+                        prof, d[0], dict(a_.d["states"]).get(c), dict(b_.d["states"]).get(c)))
+    for cell in cells:
+        vd.label("cell:" + cell)
+    suite = ("2:connected:subscribe:", "2:connected:unsubscribe:")
+    vd.nontrivial = any(c not in suite for c in cells)
+
+
+# ====================================================================== C20
+
+def mon_c20(w, F, vd):
+    n = 0
+    for r in w.reqs:
+        exp = getattr(r, "expect", None)
+        if exp is None:
+            continue
+        api = next(e for e in w.log if e.k == "api" and e.d["rid"] == r.rid)
+        name = r.kind
+        if name in API_OPS:
+            conn = r.conn
+            ph = "idle"
+            closing = False
+            for x in w.log[:api.i]:
+                if x.c == conn.idx:
+                    if x.k == "phase":
+                        ph = x.d["new"] if x.d["new"] in ("connecting", "connected") else "idle"
+                    elif x.k == "lost":
+                        ph = "idle"
+                        closing = False
+                    elif x.k in ("close", "abort"):
+                        closing = True
+            if closing or not _allowed(name, ph, w.cfg["profile"]) or r.state_before != ph:
+                vd.label("c20:%s:outside_its_state" % name)
+                continue
+        n += 1
+        evs = _ctx_events(w, api)
+        in_call = None
+        if r.ret == "raised":
+            in_call = ("raised", r.exc)
+        elif r.ret == "deferred" and r.fires and w.log[r.fires[0][0]].ctx is api.ctx:
+            in_call = ("fired_" + r.fires[0][3], r.fires[0][4])
+        setter = name in ("setWindowSize", "setTimeout", "setBandwith")
+        what = "%s(%s%s)" % (name, ", ".join(repr(x)[:40] for x in r.args["args"]),
+                             (", " if r.args["args"] and r.args["kwargs"] else "") + ", ".join("%s=%s" % (k, repr(v)[:40]) for k, v in sorted(r.args["kwargs"].items())))
+        vd.label("c20:%s:%s" % (name, exp))
+        if exp in ("reject", "reject_any"):
+            ok = False
+            if in_call is not None and isinstance(in_call[1], (ValueError, TypeError)):
+                if setter:
+                    ok = in_call[0] == "raised" and (isinstance(in_call[1], ValueError) or exp == "reject_any")
+                else:
+                    ok = in_call[0] == "fired_err" or (exp == "reject_any" and in_call[0] == "raised")
+            if not ok and name in ("subscribe", "unsubscribe") and in_call is not None and in_call[0] == "fired_err" \
+                    and type(in_call[1]).__name__ == "MQTTWindowError":
+                ok = True       # the window was full as well; which refusal wins is not specified
+                vd.label("c20:window_error_first")
+            if not ok:
+                vd.bad("C20.not_rejected", "%s in state %s: %s" % (what, r.state_before,
+                       "accepted" if in_call is None or in_call[0] == "fired_ok" else "%s %s" % (in_call[0], type(in_call[1]).__name__)))
+            wrote = [x for x in evs if x.k == "write"]
+            if wrote:
+                vd.bad("C20.rejected_but_wrote", "%s was rejected but wrote %d bytes" % (what, sum(len(x.d["data"]) for x in wrote)))
+            if r.state_before != r.state_after:
+                vd.bad("C20.rejected_state_change", "%s moved protocol.state %s -> %s" % (what, r.state_before, r.state_after))
+            if w.ops_done[api.step][0] == "call":
+                ta, tb = timers_before_after(w, F, api.step)
+                if ta != tb:
+                    vd.bad("C20.rejected_timer", "%s changed the pending timers %s -> %s" % (what, ta[:5], tb[:5]))
+        elif exp == "accept":
+            if in_call is not None and in_call[0] in ("raised", "fired_err") and isinstance(in_call[1], (ValueError, TypeError)):
+                vd.bad("C20.valid_rejected", "%s in state %s: %s %s" % (what, r.state_before, in_call[0], type(in_call[1]).__name__))
+            elif in_call is not None and in_call[0] == "raised":
+                vd.bad("C20.valid_rejected", "%s raised %s" % (what, type(in_call[1]).__name__))
+            elif not setter and name == "connect" and r.state_before == "idle":
+                if not any(fr[0] == "CONNECT" for x in evs if x.k == "write" for fr in x.d["frames"]):
+                    vd.bad("C20.valid_no_effect", "%s wrote no CONNECT" % what)
+            elif not setter and name in ("publish", "subscribe", "unsubscribe") and in_call is not None and in_call[0] == "fired_err":
+                if type(in_call[1]).__name__ not in ("MQTTWindowError",):
+                    vd.bad("C20.valid_rejected", "%s failed with %s" % (what, type(in_call[1]).__name__))
+    vd.nontrivial = n > 0
+
+
+# ====================================================================== C16
+
+def mon_c16(w, F, vd):
+    from . import refcodec as R
+    nontriv = False
+    for e in F.escapes:
+        wh = e.d["where"]
+        if wh == "dataReceived" or wh == "connectionLost" or wh.startswith("timer:") or wh.startswith("log:"):
+            vd.bad("C16.exception_escaped", "%s (%s) out of %s" % (e.d["exc"], e.d["msg"][:60], wh.split(".")[-1][:40]))
+    bufs = {}
+    broken = set()
+    for e in w.log:
+        if e.k != "rx":
+            continue
+        c = e.c
+        if c in broken:
+            continue
+        data = bufs.get(c, b"") + bytes(e.d["data"])
+        try:
+            frames, residue = R.ref_frames(data)
+        except R.Malformed:
+            broken.add(c)        # a fifth length byte: the stream can never be framed again
+            continue
+        bufs[c] = residue
+        if e.d["desc"][0] != "RAW" and len(frames) == 1 and frames[0] == bytes(e.d["data"]):
+            continue             # a well-formed packet delivered on a clean boundary: other properties judge it
+        ver = w.conns[c].version or R.V311
+        classes = []
+        for fr in frames:
+            try:
+                kind, f, soft = R.ref_decode(fr, R.B2C, ver)
+                classes.append("soft" if soft else "well")
+            except R.Malformed:
+                classes.append("hard")
+        evs = _ctx_events(w, e)
+        for x in evs:
+            if x.k == "close":
+                vd.bad("C16.reaction", "input %s... answered with loseConnection (only abort is expected)" % data[:8].hex())
+        pending_before = any(ri.accepted and (ri.fire is None or ri.fire[0] > e.i) and not (ri.kind == "publish" and ri.qos == 0)
+                             for ri in F.info.values() if ri.req.step < e.step)
+        if all(c_ == "hard" for c_ in classes):
+            # nothing but hard-malformed frames (or no complete frame at all) became available in this delivery
+            if classes:
+                if pending_before:
+                    nontriv = True
+                vd.label("hard_malformed:type%d" % (frames[0][0] >> 4))
+            else:
+                vd.label("incomplete_frame")
+            shown = (frames[0] if frames else data)[:12].hex()
+            for x in evs:
+                if x.k == "cb" and x.d["name"] == "onPublish":
+                    vd.bad("C16.unjustified_delivery", "malformed frame %s... reached onPublish(%r, %d bytes)" % (
+                        shown, x.d["topic"][:20], len(x.d["payload"])))
+                elif x.k == "fire" and x.d["out"] == "ok":
+                    vd.bad("C16.unjustified_success", "malformed frame %s... completed %s #%d" % (shown, x.d["kind"], x.d["rid"]))
+                elif x.k == "write" and x.d["where"] == "wire":
+                    vd.bad("C16.unjustified_write", "malformed frame %s... was answered with %s" % (
+                        shown, [fr[0] for fr in x.d["frames"]]))
+        else:
+            vd.label("frames:" + "+".join(sorted(set(classes))))
+    # unsolicited acknowledgements with requests pending
+    for e in F.rx:
+        if e.d["desc"][0] != "RAW" and unsolicited(e):
+            nontriv = True
+    # afterwards everything pending is settled by the ordinary loss handling (clean sessions)
+    for e in w.log:
+        if e.k != "lost":
+            continue
+        conn = w.conns[e.c]
+        if conn.clean is not True:
+            continue
+        if len([r for r in w.reqs if r.kind == "connect" and r.conn is conn and r.ret == "deferred"]) > 1:
+            continue      # a second connect() on the same transport (after a refusal the harness did not model)
+        for ri in F.info.values():
+            if ri.conn is conn and ri.accepted and not (ri.kind == "publish" and ri.qos == 0):
+                if ri.fire is None or ri.fire[0] > _end_of_ctx(w, e):
+                    vd.bad("C16.left_hanging", "%s #%d still pending after the connection was lost" % (ri.kind, ri.rid))
+    vd.nontrivial = nontriv
+
+
+def _end_of_ctx(w, e):
+    evs = _ctx_events(w, e)
+    return evs[-1].i if evs else e.i
